@@ -495,3 +495,28 @@ Proof.
     + exact Hin1.
     + specialize (HG z HinG). unfold cfg_cids in HG |- *. rewrite HC in HG. exact HG.
 Qed.
+
+Require Import Grits.proofs.SaxDrop.
+(* `drop x; k` in the non-polarized mode: the process goes on and nothing is reclaimed — the rule s_drop of Sax.v whose
+   pending request drop(x) stays behind (it never fires: the provider of x keeps running, as it may in Sax.v) *)
+Lemma refines_np_drop D F teq Δ c p n0 a x k nx c' :
+  cfg_typed D F teq Δ c -> procs c !! p = Some (Proc [n0] (FDrop x k) nx) -> chan n0 = Some a ->
+  step NP D F c (Run p) = SStep c' ->
+  exists b, chan x = Some b /\ sax_step F true (α c) [] (α c' ++ [SDrop b]) /\ labels c' = labels c.
+Proof.
+  intros Hc Hp Hn Hs.
+  destruct (ct_procs _ _ _ _ _ Hc p _ Hp) as (s & rs & _ & _ & Hty). cbn in Hty.
+  inversion Hty as [| | | | | | | | | | | |? ? ? ? ? ? T Hcl Hk| | | | | | |]; subst.
+  destruct (chan_ty_init teq Δ x T Hcl) as [b Hb]. destruct Hcl as (Hxs & _).
+  cbn [step] in Hs. rewrite Hp in Hs.
+  assert (action_of NP D (Proc [n0] (FDrop x k) nx) = AInternal) as Ea by (unfold action_of; cbn [pr_body0]; rewrite Hxs; reflexivity).
+  assert (internal_effect NP F p (Proc [n0] (FDrop x k) nx) = EOk (no_eff (Continue (set_body (Proc [n0] (FDrop x k) nx) k)))) as Ei by reflexivity.
+  rewrite Ea, Ei in Hs. cbn [eff_step] in Hs. injection Hs as <-.
+  exists b. split; [done|]. split; [|rewrite labels_effect; cbn; by rewrite app_nil_r].
+  exists [SProc a (FDrop x k)], [Sax.obj a k; SDrop b], (procs_objs (delete p (procs c)) ++ chans_objs (chans c)).
+  split; [|split].
+  - rewrite (alpha_lookup c p _ Hp). unfold proc_obj, pobj. cbn. by rewrite Hn.
+  - unfold no_eff. rewrite alpha_effect_simple. unfold proc_obj, pobj, set_body. cbn. rewrite Hn. cbn.
+    apply perm_skip. symmetry. apply Permutation_cons_append.
+  - right. split; [done|]. by apply s_drop.
+Qed.
